@@ -12,6 +12,7 @@ import (
 	"fmt"
 	"io"
 	"runtime"
+	"runtime/debug"
 	"sync"
 	"sync/atomic"
 	"testing"
@@ -669,4 +670,120 @@ func btoi(b bool) int {
 
 func TestVerifC05_Packets(t *testing.T) {
 	vRun(t, "C05", vOpts{CurFile: true}, c05Gen, c05Run)
+}
+
+// ---------------------------------------------------------------------------
+// bodies at and beyond the protocol maximum
+
+type c05OverCase struct {
+	Kind     string `json:"kind"`     // "func": the length encoder alone; "publish": a PUBLISH through the API
+	N        int    `json:"n"`        // func: the length handed to the encoder
+	Short    int    `json:"short"`    // publish: payload length = 268435455 - Short
+	TopicLen int    `json:"topicLen"` // publish
+	QoS      int    `json:"qos"`      // publish: 0 or 1
+}
+
+// c05Sniff is a transport that keeps the first bytes of the stream and counts the rest.
+type c05Sniff struct {
+	mu     sync.Mutex
+	head   []byte
+	total  int
+	closed chan struct{}
+	once   sync.Once
+}
+
+func (s *c05Sniff) Write(p []byte) (int, error) {
+	s.mu.Lock()
+	defer s.mu.Unlock()
+	if len(s.head) < 8 {
+		k := 8 - len(s.head)
+		if k > len(p) {
+			k = len(p)
+		}
+		s.head = append(s.head, p[:k]...)
+	}
+	s.total += len(p)
+	return len(p), nil
+}
+func (s *c05Sniff) Read(p []byte) (int, error) { <-s.closed; return 0, io.EOF }
+func (s *c05Sniff) Close() error               { s.once.Do(func() { close(s.closed) }); return nil }
+
+// TestVerifC05_OverMax: a body the protocol cannot carry (more than 268435455 bytes) must be refused before anything
+// is written - by an error or by the documented panic - and the largest bodies it can carry must go out with the
+// minimal four-byte length.  The length encoder alone must never return an encoding for a larger number.
+func TestVerifC05_OverMax(t *testing.T) {
+	vRun(t, "C05", vOpts{CurFile: true}, func(rt *rapid.T) c05OverCase {
+		if rapid.IntRange(0, 2).Draw(rt, "kind") > 0 {
+			d := rapid.SampledFrom([]int{1, 2, 127, 128, 1 << 20, 1 << 28, 1<<31 - 1 - refMaxRemaining}).Draw(rt, "over")
+			return c05OverCase{Kind: "func", N: refMaxRemaining + d}
+		}
+		return c05OverCase{Kind: "publish", Short: rapid.IntRange(0, 20).Draw(rt, "short"), TopicLen: rapid.IntRange(0, 12).Draw(rt, "topicLen"), QoS: rapid.IntRange(0, 1).Draw(rt, "qos")}
+	}, func(tb rapid.TB, c c05OverCase) {
+		if c.Kind == "func" {
+			vCount("C05", true, vJSON(c), []string{"over-max:encoder"}, func() interface{} { return c })
+			var out []byte
+			panicked := func() (p bool) {
+				defer func() {
+					if recover() != nil {
+						p = true
+					}
+				}()
+				out = remainingLength(c.N)
+				return false
+			}()
+			if !panicked {
+				vFailf(tb, nil, "remainingLength(%d) returned % x for a length beyond the protocol maximum 268435455 (a well-formed length field has at most 4 bytes)", c.N, out)
+			}
+			return
+		}
+		payloadLen := refMaxRemaining - c.Short
+		body := 2 + c.TopicLen + payloadLen
+		if c.QoS > 0 {
+			body += 2
+		}
+		label := "over-max:publish-fits"
+		if body > refMaxRemaining {
+			label = "over-max:publish-too-big"
+		}
+		vCount("C05", true, vJSON(c), []string{label}, func() interface{} { return c })
+		topic := "0123456789ab"[:c.TopicLen]
+		if c.TopicLen == 0 {
+			topic = "" // (an empty topic name is not this check's business: only the length field is)
+		}
+		sn := &c05Sniff{closed: make(chan struct{})}
+		cli := &BaseClient{Transport: sn}
+		cli.sig = &signaller{} // a connected client, as far as Publish is concerned
+		cli.connClosed = make(chan struct{})
+		ctx, cancel := context.WithCancel(context.Background())
+		cancel() // QoS1: do not wait for a PUBACK
+		msg := &Message{Topic: topic, QoS: QoS(c.QoS), Payload: make([]byte, payloadLen)}
+		var err error
+		var pv interface{}
+		func() {
+			defer func() { pv = recover() }()
+			err = cli.Publish(ctx, msg)
+		}()
+		msg.Payload = nil
+		sn.Close()
+		sn.mu.Lock()
+		head, total := append([]byte{}, sn.head...), sn.total
+		sn.mu.Unlock()
+		defer debug.FreeOSMemory()
+		if body > refMaxRemaining {
+			if total != 0 {
+				vFailf(tb, nil, "a PUBLISH whose body would be %d bytes (protocol maximum 268435455) was not refused: %d bytes were written, starting % x (Publish returned %v, panic %v)", body, total, head, err, pv)
+			}
+			if pv == nil && err == nil {
+				vFailf(tb, nil, "Publish of a %d-byte body returned nil although nothing was written", body)
+			}
+			return
+		}
+		if pv != nil {
+			vFailf(tb, nil, "Publish panicked for a legal body of %d bytes: %v", body, pv)
+		}
+		want := append([]byte{byte(0x30 | c.QoS<<1)}, refEncodeLen(body)...)
+		if total != len(want)+body || !bytes.Equal(head[:len(want)], want) {
+			vFailf(tb, nil, "PUBLISH with a legal body of %d bytes: %d bytes written starting % x, want %d bytes starting % x (Publish returned %v)", body, total, head, len(want)+body, want, err)
+		}
+	})
 }
